@@ -149,6 +149,7 @@ BROKEN = ["<% 1 +/ %>", "{{ 1 +/ }}", "<% (1 + 2 %>", "{{ (1 + 2 }}", "{% if 1 %
 FORMS = ["<% ctx().nope %>", "<% ctx(nope) %>", "<% ctx('nope') %>", "{{ ctx().nope }}", "{{ ctx('nope') }}",
          '<% ctx("nope") %>', '{{ ctx("nope") }}']
 LATE = "zz_late"
+NAMES = ["nope", "4th", "nope", "_x9", "nope", "X", "9"]
 
 # known candidates: confirmed cases in which an accepted definition raises an internal error under a conformant
 # history.  id -> predicate(violation dict); exactly those are reported as known.  (Violations after the trigger
@@ -617,9 +618,16 @@ def expression_mutants(base, tier, nstruct, calls):
                             "cpath": cpath, "task": task}))
         for j in range(per[1]):
             e = FORMS[(n * per[1] + j) % len(FORMS)]
+            # other shapes of variable names that the definition language accepts as keys (\w+, and the extraction
+            # regexes also take '-'): only in the quoted function-call forms, where any name can be written
+            name = NAMES[(n + j) % len(NAMES)]
+            if name != "nope" and ("('nope')" in e or '("nope")' in e):
+                e = e.replace("nope", name)
+            else:
+                name = "nope"
             m = copy.deepcopy(base)
             apply(m, e)
-            out.append((m, {"class": "unassigned_variable", "position": label, "expr": e, "var": "nope",
+            out.append((m, {"class": "unassigned_variable", "position": label, "expr": e, "var": name,
                             "cpath": cpath, "epath": epath, "task": task}))
     return out
 
